@@ -450,6 +450,57 @@ func (c18) Exec(c *sim.Case, env *Env) []sim.Violation {
 			add("part-changed", normPart(n), "binary part "+n+" differs")
 		}
 	}
+	// ---- a second render from the same cached template (with a picture of another format) must not reach into the first one
+	if rendered != nil {
+		simrt.Uninstall()
+		simrt.InstallOrder(c.Order, c.OrderSeed, 0, nil)
+		eng := document.NewTemplateEngine()
+		var dA *document.Document
+		var bA1, bA2 []byte
+		sig, pn := Guard(func() {
+			if _, e := eng.LoadTemplateFromDocument("t", base.D); e != nil {
+				return
+			}
+			dA, _ = eng.RenderTemplateToDocument("t", data.ToLib())
+			if dA == nil {
+				return
+			}
+			other := *data
+			other.Images = map[string][]int{}
+			for k, v := range data.Images {
+				nv := append([]int{}, v...)
+				if len(nv) >= 4 {
+					nv[0], nv[3] = (nv[0]+1)%3, nv[3]+1
+				}
+				other.Images[k] = nv
+			}
+			dB, _ := eng.RenderTemplateToDocument("t", other.ToLib())
+			if dB != nil {
+				_, _ = dB.AddImageFromData(world.MakeImage("gif", 3, 3, 9191), "late.gif", document.ImageFormatGIF, 3, 3, nil)
+				_ = dB.AddFooter(document.HeaderFooterTypeEven, "later footer")
+			}
+			bA2, _ = dA.ToBytes()
+		})
+		if pn {
+			add("panic", sig, "a second render from the cached template panicked")
+		} else if dA != nil && bA2 != nil {
+			bA1 = b1
+			c1, e1 := CanonPackage(bA1)
+			c2, e2 := CanonPackage(bA2)
+			if e1 == nil && e2 == nil {
+				if sg, det := PkgDiff(c1, c2); sg != "" {
+					add("render-reaches-into-earlier-render", sg, "a document rendered earlier from the same cached template changed when a later render was made and extended: "+det)
+				}
+			}
+			if _, wf := CheckWellFormed(bA2); len(wf) > 0 {
+				add("render-reaches-into-earlier-render", wf[0].Clause+":"+wf[0].Sig, wf[0].Detail)
+			} else if pk, err := inspect.ReadZip(bA2); err == nil {
+				if rv := CheckRels(pk); len(rv) > 0 {
+					add("render-reaches-into-earlier-render", rv[0].Clause+":"+rv[0].Sig, rv[0].Detail)
+				}
+			}
+		}
+	}
 	// ---- order independence
 	if b2, _, f2 := render("reverse"); f2 == "" {
 		c1, e1 := CanonPackage(b1)
